@@ -260,6 +260,26 @@ def run(db, cx):
             cx.ob("C17.6-copy", "copy_steps assigns DetectorStepOutput::%s from the same state field" % x,
                   ok, "source: %s" % got.get(C + "DetectorStepOutput::" + x), short(f.loc),
                   why="an output vector that is not (or wrongly) filled hands the callback stale data")
+        # ... on every path: an early exit (e.g. "no slot is in a detector") leaves the previous
+        # iteration's hits in an output buffer that the caller re-uses (seeded change c17e)
+        miss = []
+        wit = None
+        for x in outs:
+            if x == "points":
+                continue
+
+            def pr(ev, x=x):
+                return ev["e"] == "call" and ev["callee"].endswith("assign_field") and len(ev.get("args", [])) >= 2 \
+                    and (path_leaf(ev["args"][0].get("path")) or "") == C + "DetectorStepOutput::" + x
+            okp, p_ = f.must_pass(pr)
+            if not okp:
+                miss.append(x)
+                wit = wit or p_
+        cx.ob("C17.6-copy", "copy_steps replaces every output vector on every path (no early exit)",
+              not miss, "not assigned on some path: %s" % ", ".join(miss) if miss else "", short(f.loc),
+              path=f.path_locs(wit) if wit else None,
+              why="the output is the consolidated list of this iteration's in-detector steps; a path "
+                  "that leaves it untouched delivers the previous iteration's steps a second time")
         for x in pouts:
             ok = got.get(C + "DetectorStepPointOutput::" + x) == C + "StepPointStateData::" + x
             cx.ob("C17.6-copy", "copy_steps assigns points[].%s from the same state field" % x, ok,
